@@ -102,6 +102,8 @@ def _find_in(node, name):
     while stack:
         n = stack.pop(0)
         if isinstance(n, (ast.FunctionDef, ast.ClassDef, ast.AsyncFunctionDef)) and n.name == name:
+            if any(ast.unparse(d).split(".")[-1] == "overload" for d in getattr(n, "decorator_list", [])):
+                continue     # typing stubs
             return n
         if isinstance(n, ast.If):
             # `if cython.compiled:` -> prefer the pure arm
